@@ -275,7 +275,7 @@ fn tok_node(i: u8, has: bool, tok: [u8; 4]) -> Node {
 fn start_scenario(n: usize) {
     clock::set(0);
     let mut s = fake_socket(false);
-    let has: [bool; 3] = kani::any();
+    let has: [bool; 3] = [kani::any(), kani::any(), kani::any()];
     let toks: [[u8; 4]; 3] = kani::any();
     let with_extra: bool = kani::any();
     let closest = [tok_node(0, has[0], toks[0]), tok_node(1, has[1], toks[1])];
@@ -483,8 +483,8 @@ fn count_of(q: &PutQuery, code: i32) -> usize {
 
 fn tally_step(pre: usize) {
     let mut q = PutQuery::new(request_of(3), None);
-    let codes: [i32; 3] = kani::any();
-    let counts: [usize; 3] = kani::any();
+    let codes: [i32; 3] = [kani::any(), kani::any(), kani::any()];
+    let counts: [usize; 3] = [kani::any(), kani::any(), kani::any()];
     kani::assume(codes[0] != codes[1] && codes[0] != codes[2] && codes[1] != codes[2]);
     kani::assume(counts[0] >= counts[1] && counts[1] >= counts[2] && counts[2] >= 1 && counts[0] < 1000);
     let mut i = 0;
